@@ -1130,3 +1130,16 @@ where
         )
     }
 }
+
+/// Verification hook (feature `verif_hooks`, add-only): the slot layout of one index map - for every slot
+/// its key, its value and the slot `get_key_id` reports for that key.
+#[cfg(feature = "verif_hooks")]
+impl<K: Kmer, D: Debug> DebruijnGraph<K, D> {
+    pub fn verif_index_layout(&self, side: Dir) -> Vec<(K, u32, Option<usize>)> {
+        let m = match side {
+            Dir::Left => &self.left_order,
+            Dir::Right => &self.right_order,
+        };
+        m.iter().map(|(k, v)| (*k, *v, m.get_key_id(k))).collect()
+    }
+}
